@@ -39,7 +39,7 @@ class Ambiguous(Exception):
 
 class Item:
     __slots__ = ('key', 'types', 'id', 'value', 'expire', 'expire_alt', 'tag', 'binary_file',
-                 'stored_seq', 'used_seq', 'reads')
+                 'stored_seq', 'used_seq', 'reads', 'incrs')
 
     def __init__(self, key, kid):
         self.key = key
@@ -54,6 +54,7 @@ class Item:
         self.stored_seq = 0
         self.used_seq = 0
         self.reads = 0
+        self.incrs = 0          # incr calls on the live item since it was last stored
 
 
 def sql_eq(a, b):
@@ -140,6 +141,7 @@ class RefCache:
         it.stored_seq = self.seq
         it.used_seq = self.seq
         it.reads = 0
+        it.incrs = 0
         return it
 
     def _set_expire(self, it, ttl):
@@ -208,6 +210,7 @@ class RefCache:
             return Raised(OverflowError)
         it.value = value
         it.stored_seq = self.seq
+        it.incrs += 1
         self._touch_policy(it, is_read=False)
         return value
 
